@@ -9,6 +9,7 @@ import Ahbicht.Model.Extract
 import Ahbicht.Model.Val
 import Ahbicht.Model.Time
 import Ahbicht.Model.Json
+import Ahbicht.Model.Heap
 /-!
 # line-protocol driver: one JSON request per line on stdin, one JSON answer per line on stdout
 -/
@@ -174,6 +175,63 @@ partial def wireOfJO : JO → List Json
   | .cons k v rest => Json.arr #[Json.str k, wireOfJ v] :: wireOfJO rest
 end
 
+-- value trees on the wire: ["T", data, [children]] | ["t", type, value]
+mutual
+partial def ltreeOfJson (j : Json) : Except String LTree := do
+  let a ← j.getArr?
+  let d ← (a[1]? |>.getD Json.null).getStr?
+  let cs ← (a[2]? |>.getD Json.null).getArr?
+  pure (.node d (← lforestOfJson cs.toList))
+partial def lforestOfJson (js : List Json) : Except String LForest :=
+  match js with
+  | [] => pure .nil
+  | j :: rest => do
+    let a ← j.getArr?
+    let tag ← (a[0]? |>.getD Json.null).getStr?
+    if tag == "t" then
+      pure (.consTok (← (a[1]? |>.getD Json.null).getStr?) (← (a[2]? |>.getD Json.null).getStr?) (← lforestOfJson rest))
+    else
+      pure (.consTree (← ltreeOfJson j) (← lforestOfJson rest))
+end
+
+mutual
+partial def jsonOfLTree : LTree → Json
+  | .node d cs => Json.arr #["T", Json.str d, Json.arr (jsonOfLForest cs).toArray]
+partial def jsonOfLForest : LForest → List Json
+  | .nil => []
+  | .consTok ty v rest => Json.arr #["t", Json.str ty, Json.str v] :: jsonOfLForest rest
+  | .consTree t rest => jsonOfLTree t :: jsonOfLForest rest
+end
+
+def natList (j : Json) : Except String (List Nat) := do
+  let a ← j.getArr?
+  a.toList.mapM fun x => x.getNat?
+
+def newChildOf (j : Json) : Except String NewChild := do
+  match j.getObjVal? "tok" with
+  | .ok t => do
+    let a ← t.getArr?
+    pure (.tok (← (a[0]? |>.getD Json.null).getStr?) (← (a[1]? |>.getD Json.null).getStr?))
+  | .error _ =>
+    match j.getObjVal? "fresh" with
+    | .ok t => do pure (.fresh (← ltreeOfJson t))
+    | .error _ => do
+      let e ← j.getObjVal? "existing"
+      let a ← e.getArr?
+      pure (.existing (← (a[0]? |>.getD Json.null).getNat?) (← natList (a[1]? |>.getD Json.null)))
+
+def editOf (j : Json) : Except String Edit := do
+  let k ← j.getObjValAs? String "k"
+  match k with
+  | "replace" => pure (.replace (← j.getObjValAs? Nat "i") (← newChildOf (← j.getObjVal? "c")))
+  | "remove" => pure (.remove (← j.getObjValAs? Nat "i"))
+  | "append" => pure (.append (← newChildOf (← j.getObjVal? "c")))
+  | "rebind" => do
+    let cs ← (← j.getObjVal? "cs").getArr?
+    pure (.rebind (← cs.toList.mapM newChildOf))
+  | "setData" => pure (.setData (← j.getObjValAs? String "d"))
+  | _ => throw "bad edit"
+
 def roundTrip (cls : String) (j : J) : Option J :=
   match cls with
   | "rc" => (loadRc j).map dumpRc
@@ -301,6 +359,22 @@ def handle (j : Json) : Except String Json := do
     match roundTrip cls w with
     | some d => pure (Json.mkObj [("json", wireOfJ d)])
     | none => pure (Json.mkObj [("err", "ValidationError")])
+  | "cacheOps" =>
+    let mode := if (← getStr j "mode") == "deep" then CopyMode.deep else CopyMode.shareChildren
+    let cap ← j.getObjValAs? Nat "cap"
+    let pureTab ← j.getObjVal? "pure"
+    let pp : String → Option LTree := fun s =>
+      match pureTab.getObjVal? s with
+      | .ok t => (ltreeOfJson t).toOption
+      | .error _ => none
+    let opsJ ← (← j.getObjVal? "ops").getArr?
+    let ops ← opsJ.toList.mapM fun o => do
+      let a ← o.getArr?
+      let tag ← (a[0]? |>.getD Json.null).getStr?
+      if tag == "parse" then pure (HOp.parse (← (a[1]? |>.getD Json.null).getStr?))
+      else pure (HOp.edit (← (a[1]? |>.getD Json.null).getNat?) (← natList (a[2]? |>.getD Json.null)) (← editOf (a[3]? |>.getD Json.null)))
+    let outs := runOps pp mode cap State.init ops
+    pure (Json.mkObj [("returned", Json.arr (outs.map fun o => match o with | some t => jsonOfLTree t | none => Json.null).toArray)])
   | _ => throw s!"unknown op {op}"
 
 partial def loop (h : IO.FS.Stream) (out : IO.FS.Stream) : IO Unit := do
